@@ -167,6 +167,8 @@ def c08(proj, rep, tier):
     rep.floor('E1 literal table obligations', n, 22)
     n = pauli.e2(proj, rep)
     rep.floor('E2 phase-folding obligations', n, 6)
+    n = pauli.e4(proj, rep)
+    rep.floor('E4 PauliOperator group-law obligations', n, 4)
     n = pauli.e3(proj, rep)
     rep.floor('E3 rand_pauli hermiticity obligations', n, 2)
     ncache, nsites = ownership.o1(proj, rep, focus={'numqi.gate._pauli.get_pauli_group'})
